@@ -4,11 +4,16 @@ import Driver.Common
 /- driver for engine `text` (C15).  Op file (see harness/h_text.c for the same grammar):
 
      R <S|F> <start> <show|print> <item>...     write the items at position <start> of a String / File, read them back
-         item ::= s=<hex> | i=<dec> | f=<16 hex> | li=<dec> | ld=<dec> | lf=<16 hex> | t=<hex> | pc | z=<hex> (last only)
-     K <S|F> <start> <s|i|f|ld> x=<hex>         read one value of that kind from the given text at <start>
+         item ::= s=<hex> | i=<dec> | f=<16 hex> | t=<hex> | pc | z=<hex> (last only)
+                | I<mod><conv>=<dec>     an Int under the integer specification %<mod><conv>  (mod: empty hh h l ll j z t q; conv: d i o u x X)
+                | F[l]<conv>=<16 hex>    a Float under the floating specification %[l]<conv>    (conv: f F e E g G)
+                | li=<dec> | ld=<dec> | lf=<16 hex>      short for Ili= Ild= Flf=
+     K <S|F> <start> <s|i|f|ld|I<mod><conv>|F[l]<conv>> x=<hex>   read one value of that kind from the given text at <start>
 
-   prints the observation line the C harness prints (`O …`) and, for `R`, a line `M rt=<0|1> contract=<0|1>`:
-   did the model itself read back what it wrote, consuming exactly that, and is the op inside the property's quantifier. -/
+   prints the observation line the C harness prints (`O …`) and, for `R`, a line `M rt=<0|1> contract=<0|1|2>`:
+   did the model itself read back what it wrote, consuming exactly that, and is the op inside the property's quantifier
+   (1 = `inProperty`; 2 = the contract holds and the only values that do not fit their destination are Floats under a floating
+   specification that is read into a `float`: the territory of known finding KF-C15-float-spec-narrow; 0 = neither). -/
 open Cello.Text
 
 def hexVal (c : Char) : Option Nat :=
@@ -74,6 +79,31 @@ inductive Tok where
   | item (it : Item)
   | z (bs : List Nat)
 
+def parseIMod (s : String) : Option IMod :=
+  IMod.all.find? (fun m => String.ofList (m.text.map Char.ofNat) = s)
+
+def parseIConv (c : Char) : Option IConv := IConv.all.find? (fun v => v.byte = c.toNat)
+def parseFConv (c : Char) : Option FConv := FConv.all.find? (fun v => v.byte = c.toNat)
+
+/-- `I<mod><conv>` -/
+def parseISpec (k : String) : Option (IMod × IConv) :=
+  match k.toList with
+  | 'I' :: r =>
+    match r.reverse with
+    | cv :: m => do
+      let c ← parseIConv cv
+      let md ← parseIMod (String.ofList m.reverse)
+      pure (md, c)
+    | [] => none
+  | _ => none
+
+/-- `F[l]<conv>` -/
+def parseFSpec (k : String) : Option (Bool × FConv) :=
+  match k.toList with
+  | ['F', cv] => (parseFConv cv).map fun c => (false, c)
+  | ['F', 'l', cv] => (parseFConv cv).map fun c => (true, c)
+  | _ => none
+
 def parseTok (printMode : Bool) (tok : String) : Option Tok :=
   if tok = "pc" then (if printMode then some (.item .pct) else none) else
   let (k, v) := splitEq tok
@@ -88,7 +118,12 @@ def parseTok (printMode : Bool) (tok : String) : Option Tok :=
   | "t" => (unhex v.toList).bind fun bs =>
       if !bs.isEmpty && bs.all (fun b => b != 0 && b != 37) then some (.item (.lit bs)) else none
   | "z" => (unhex v.toList).bind fun bs => if bs.all (· != 0) then some (.z bs) else none
-  | _ => none
+  | _ =>
+    if !printMode then none else
+    match parseISpec k, parseFSpec k with
+    | some (m, c), _ => (parseInt64 v).map fun n => .item (.ispec m c n)
+    | none, some (l, c) => (parseBits v).map fun b => .item (.fspec l c b)
+    | none, none => none
 
 /-- items and trailing text; `none` = ill-formed (z not last, adjacent literals, nothing to do) -/
 def parseItems (printMode : Bool) (toks : List String) : Option (List Item × List Nat) := do
@@ -125,9 +160,12 @@ def showRes (k : Kind) (r : Res (Input × Nat)) : String × String :=
 def parseKind (s : String) : Option Kind :=
   if s = "S" then some .str else if s = "F" then some .file else none
 
-def valEqModel : Val → Val → Bool
-  | .flt a, .flt b => printF a == printF b     -- Float: equal to within the printed precision
-  | a, b => a == b
+/-- is the value read the value the item wrote (Float: equal to within the printed precision — the same text under the item's
+    own specification) -/
+def itemEq : Item → Val → Bool
+  | .shw (.flt a), .flt b => printF a == printF b
+  | .fspec _ c a, .flt b => printFloatSpec c a == printFloatSpec c b
+  | it, v => it.val? == some v
 
 def doR (k : Kind) (start : Nat) (pm : Bool) (its : List Item) (z : List Nat) : IO Unit := do
   let c := srcCfg
@@ -150,12 +188,14 @@ def doR (k : Kind) (start : Nat) (pm : Bool) (its : List Item) (z : List Nat) : 
     | some (vals, r) =>
       let (rs, tell) := showRes k r
       IO.println s!"O R w={wpos} text={dump text} r={rs} vals={showVals vals} tell={tell}"
-      let want := its.filterMap Item.val?
+      let want := its.filter (fun it => it.val?.isSome)
       let rt : Bool := match r with
-        | .ok (i, p) => p == wpos && vals.length == want.length && (vals.zip want).all (fun (a, b) => valEqModel a b) &&
+        | .ok (i, p) => p == wpos && vals.length == want.length && (want.zip vals).all (fun (it, v) => itemEq it v) &&
             (k == .str || i.cur == wpos) && wpos == start + text.length
         | _ => false
-      IO.println s!"M rt={if rt then 1 else 0} contract={if contractOK c k its z then 1 else 0}"
+      let onlyNarrow : Bool := its.all (fun it => it.inWidth c || (match it with | .fspec _ _ _ => true | _ => false))
+      let contract : Nat := if inProperty c k its z then 1 else if contractOK c k its z && onlyNarrow then 2 else 0
+      IO.println s!"M rt={if rt then 1 else 0} contract={contract}"
 
 def doK (k : Kind) (start : Nat) (sh : Shape) (text : List Nat) : IO Unit := do
   let inp : Input := { kind := k, text := text, cur := start }
@@ -178,7 +218,11 @@ def main (args : List String) : IO Unit := do
       | _, _, _ => IO.println "O bad-op"
     | ["K", src, st, kind, x] =>
       let sh : Option Shape := match kind with
-        | "s" => some .str | "i" => some .int | "f" => some .flt | "ld" => some .ld | _ => none
+        | "s" => some .str | "i" => some .int | "f" => some .flt | "ld" => some .ld
+        | _ => match parseISpec kind, parseFSpec kind with
+          | some (m, c), _ => some (.ispec m c)
+          | none, some (l, c) => some (.fspec l c)
+          | none, none => none
       let (xk, xv) := splitEq x
       match parseKind src, parseNat st, sh, (if xk = "x" && x.contains '=' then unhex xv.toList else none) with
       | some k, some start, some sh, some text =>
